@@ -85,6 +85,7 @@ let run () =
        | G g, ["clear"] -> gres "clear" (tree_step !sz g TClear n al)
        (* tree *)
        | G g, ["tput"; k; ns; ds] -> gres "tput" (tree_step !sz g (TPut (ni (int k), ni (int ns), ni (int ds))) n al)
+       | G g, ["tputf"; k; ns; len] -> gres "tputf" (tree_step !sz g (TPutf (ni (int k), ni (int ns), ni (int len))) n al)
        | G g, ["tget"; k] -> gres "tget" (tree_step !sz g (TGet (ni (int k))) n al)
        | G g, "tremove" :: k :: succ :: hint ->
            let leaf = tree_step !sz g (TRemove (ni (int k), None)) n al in
@@ -98,17 +99,20 @@ let run () =
        | G g, ["tnext"; k] -> gres "tnext" (tree_step !sz g (TNext (ni (int k))) n al)
        (* hash *)
        | G g, ["hput"; k; ns; ds] -> gres "hput" (hash_step !sz g (HPut (ni (int k), ni (int ns), ni (int ds))) n al)
+       | G g, ["hputf"; k; ns; len] -> gres "hputf" (hash_step !sz g (HPutf (ni (int k), ni (int ns), ni (int len))) n al)
        | G g, ["hget"; k] -> gres "hget" (hash_step !sz g (HGet (ni (int k))) n al)
        | G g, ["hremove"; k] -> gres "hremove" (hash_step !sz g (HRemove (ni (int k))) n al)
        | G g, ["hnext"; k] -> gres "hnext" (hash_step !sz g (HNext (ni (int k))) n al)
        (* listtbl *)
        | G g, ["lput"; u; t; f; k; ns; ds] -> gres "lput" (ltbl_step !sz g (LPut (b u, b t, b f, ni (int k), ni (int ns), ni (int ds))) n al)
+       | G g, ["lputf"; u; t; f; k; ns; len] -> gres "lputf" (ltbl_step !sz g (LPutf (b u, b t, b f, ni (int k), ni (int ns), ni (int len))) n al)
        | G g, ["lget"; p] -> gres "lget" (ltbl_step !sz g (LGet (nat_of_int (int p))) n al)
        | G g, ["lgetmulti"; f; k] -> gres "lgetmulti" (ltbl_step !sz g (LGetmulti (b f, ni (int k))) n al)
        | G g, ["lremove"; f; k] -> gres "lremove" (ltbl_step !sz g (LRemove (b f, ni (int k))) n al)
        | G g, ["lnext"; p] -> gres "lnext" (ltbl_step !sz g (LNext (nat_of_int (int p))) n al)
        (* list / queue / stack / grow *)
        | G g, ["saddat"; p; ds; loc] -> gres "saddat" (list_step !sz g (SAddat (nat_of_int (int p), ni (int ds), b loc)) n al)
+       | G g, ["saddf"; p; len] -> gres "saddf" (list_step !sz g (SAddf (nat_of_int (int p), ni (int len))) n al)
        | G g, ["sgetat"; p] -> gres "sgetat" (list_step !sz g (SGetat (nat_of_int (int p))) n al)
        | G g, ["spopat"; p; t] -> gres "spopat" (list_step !sz g (SPopat (nat_of_int (int p), b t)) n al)
        | G g, ["sgettmp"; p] -> gres "sgettmp" (list_step !sz g (SGettmp (nat_of_int (int p))) n al)
@@ -119,6 +123,7 @@ let run () =
        | G g, ["sreverse"] -> gres "sreverse" (list_step !sz g SReverse n al)
        (* hasharr *)
        | G g, ["aget"; ds] -> gres "aget" (harr_step g (AGet (ni (int ds))) n al)
+       | G g, ["aputf"; len] -> gres "aputf" (harr_step g (APutf (ni (int len))) n al)
        | G g, ["anext"; ns; ds] -> gres "anext" (harr_step g (ANext (ni (int ns), ni (int ds))) n al)
        (* vector *)
        | V v, ["vaddat"; p] -> vres "vaddat" (vec_step v (VAddat (ni (int p))) n al)
